@@ -350,7 +350,7 @@ func runPure(run *report.Run) {
 	run.AddEvals(c.evals.Load(), c.nontr.Load())
 	run.AddPart(report.Part{Name: name, Engine: "D:bounded-exhaustive", Exhaustive: true, Executions: c.evals.Load(),
 		Bound:  fmt.Sprintf("255 peer sets from %d names; all permutations (config and AddPeer order) for size<=5, sorted/reversed/rotations above; %d subscriber ids (len<=3 over {a,b,0,1,:} + 512 MAC-shaped); RemovePeer of every peer and all 2^n health vectors for n<=5", len(names), len(c.ids)),
-		States: 255, Transitions: c.evals.Load(), Outcomes: 255,
+		States: 255, Outcomes: 255,
 		Note: fmt.Sprintf("wall=%.1fs", time.Since(start).Seconds())})
 	run.Sample(map[string]any{"part": name, "evaluations": c.evals.Load(), "peer_names": names, "ids_sample": c.ids[150:160]})
 }
